@@ -19,6 +19,7 @@
 #include <unistd.h>
 #include <sys/time.h>
 #include <cxxabi.h>
+#include <atomic>
 
 namespace vf {
 
@@ -73,7 +74,7 @@ inline void put_limbs(Out &o, unsigned long long v) {
 struct Cur {
     char desc[65536];
     volatile long long index = -1;     // input / step index
-    volatile unsigned long long ticks = 0;
+    std::atomic<unsigned long long> ticks{0};   // read by the watchdog signal handler, possibly on another thread
 };
 inline Cur &cur() { static Cur c; return c; }
 inline void set_cur(long long index, const std::string &desc) {
@@ -81,7 +82,7 @@ inline void set_cur(long long index, const std::string &desc) {
     c.index = index;
     if (desc.size() < sizeof(c.desc) - 1) { memcpy(c.desc, desc.data(), desc.size()); c.desc[desc.size()] = 0; }
     else snprintf(c.desc, sizeof c.desc, "{\"i\":%lld,\"truncated\":1}", index);   // keep the Abnormal event valid JSON
-    c.ticks++;
+    c.ticks.fetch_add(1, std::memory_order_relaxed);
 }
 
 inline void emit_abnormal(const char *kind, const char *detail) {
@@ -132,16 +133,19 @@ inline void on_terminate() {
 // Watchdog: a 1 Hz timer; if the step counter has not moved for `limit`
 // consecutive ticks the step is declared hung.
 inline int &wd_limit() { static int l = 10; return l; }
+// (the handlers may run on any thread of a multi-threaded executor: their state is atomic)
 inline void on_tick(int) {
-    static unsigned long long seen = ~0ull; static int same = 0;
-    if (cur().ticks == seen) { if (++same >= wd_limit()) on_signal(SIGALRM); }
-    else { seen = cur().ticks; same = 0; }
+    static std::atomic<unsigned long long> seen{~0ull}; static std::atomic<int> same{0};
+    unsigned long long now = cur().ticks.load(std::memory_order_relaxed);
+    if (now == seen.load(std::memory_order_relaxed)) { if (same.fetch_add(1, std::memory_order_relaxed) + 1 >= wd_limit()) on_signal(SIGALRM); }
+    else { seen.store(now, std::memory_order_relaxed); same.store(0, std::memory_order_relaxed); }
 }
 // wall-clock twin: a step blocked without using CPU (e.g. a lock taken by a dying allocator) is a hang too
 inline void on_tick_real(int) {
-    static unsigned long long seen = ~0ull; static int same = 0;
-    if (cur().ticks == seen) { if (++same >= 4 * wd_limit() + 20) on_signal(SIGALRM); }
-    else { seen = cur().ticks; same = 0; }
+    static std::atomic<unsigned long long> seen{~0ull}; static std::atomic<int> same{0};
+    unsigned long long now = cur().ticks.load(std::memory_order_relaxed);
+    if (now == seen.load(std::memory_order_relaxed)) { if (same.fetch_add(1, std::memory_order_relaxed) + 1 >= 4 * wd_limit() + 20) on_signal(SIGALRM); }
+    else { seen.store(now, std::memory_order_relaxed); same.store(0, std::memory_order_relaxed); }
 }
 
 inline void install_handlers() {
